@@ -23,6 +23,15 @@ CLAIMED = {
  'C12': dict(cat='model_checking', tech='exhaustive enumeration of all gap/sign histories of bounded quaternion sequences (every word over {+,-,NaN}) and complete endpoint-pair tables, executed on the real slerp/slerp_nan/remove_jumps',
    text='Every ordered pair of the binary octahedral group and of a generic coset, a grid of 324 near-equal/near-antipodal/threshold pairs per base point x 9 weights through both SLERP copies; every word over {+,-,NaN} of length 3..8 (10 in thorough) on three base sequences, i.e. all interior NaN subsets, all sign patterns and all mixtures, through slerp_nan (both modes) then remove_jumps, and q_correct. The reference geodesic is p exp(t log(p^-1 q)).',
    note='Bounded to sequences of <= 8 (10) rows and the listed endpoint alphabets; LERP-branch tolerance 1e-12 + 0.02 Omega^3; exact ties (orthogonal endpoints) accept either arc.'),
+ 'C11': dict(cat='exploration', tech='exhaustive grid walk over constructor inputs (directions x 21 decades x shapes, all route/angle grids, all pairs, all small subsets, all stubbed generator answers, finite menu of invalid inputs) on the real code',
+   text='Every direction of a 4-D/3-D lattice at every decade of norm from 1e-100 to 1e100 through Quaternion and QuaternionArray (N = 1,2,3,7); every DCM construction route over angle grids; all pairs of 128 quaternions for + and -; rotate_by over the octahedral group; average over all 1-3 element subsets of 12 clustered quaternions; random attitudes with the generator replaced by a stub that returns each of 216 answers; and a finite menu of zero/NaN/mis-shaped inputs and perturbed rotation matrices (accepted below 1e-12, rejected above 1e-4) through three routes.',
+   note='Finite menus; the band of matrix perturbations between 1e-12 and 1e-4 is unconstrained as in the statement; known finding: rotate_by(order="S") raises AxisError.'),
+ 'C14': dict(cat='exploration', tech='exhaustive walk of the complete date grid x place lattice on the real WMM code against an independent spherical-harmonic synthesis of the shipped coefficient files',
+   text='All 151 tenth-of-a-year dates 2015.0-2030.0 (thorough; quick: both epoch seams +-1 step, ends, mid-epochs) x 14 latitudes (both poles, +-89.999, +-1e-9, 0) x 8 longitudes (+-180, 0) x 5 heights, dates passed as float, datetime.date and int, X/Y/Z compared with mc/ref/wmm.py (Schmidt semi-normalised three-term recursion, own parser of the COF files) within 2e-4 nT; the reference itself is self-tested against closed forms and the 124 published WMM test values.',
+   note='Place lattice, complete date axis in thorough; trusted: mc/ref/wmm.py, WGS84 constants.'),
+ 'C17': dict(cat='exploration', tech='exhaustive grid walk of latitude x longitude x height, origins x offsets, vectors x angles through every frame conversion of the real code; identities plus closed-form reference',
+   text='Geodetic->ECEF->geodetic over 15.6 k (quick) / 1.44 M (thorough) points including both poles, 90-1e-k ladders, an equator ladder and +-180; ECEF<->ENU both directions over origins x 343 offsets, isometry over all pairs of points, AER, DCA (angles, deg/rad), NED<->ENU on vectors and arrays, LLF matrices on an angle grid.',
+   note='Grids, not the continuum; latitude tolerance 1e-8 deg = documented stopping criterion of the fixed-point iteration; trusted: mc/ref/frames.py.'),
 }
 PENDING_REASON = 'check not built yet in this session (planned in DESIGN.md section 3); not claimed until it runs clean'
 
